@@ -211,6 +211,14 @@ func (pl *lStatePool) New() *lua.LState {
 	return L
 }
 
+// Forget takes one state that Get handed out off the pool's count: it stays
+// with its user and is not coming back.
+func (pl *lStatePool) Forget() {
+	pl.m.Lock()
+	pl.total--
+	pl.m.Unlock()
+}
+
 func (pl *lStatePool) Put(L *lua.LState) {
 	pl.m.Lock()
 	pl.saved = append(pl.saved, L)
